@@ -66,10 +66,37 @@ def node_text(n, path):
     if 'offset' not in b or 'offset' not in e:
         return ''
     data = SRC.text(path)
-    t = data[b['offset']: e['offset'] + e.get('tokLen', 0)].decode('utf8', 'replace')
+    end = e['offset'] + e.get('tokLen', 0)
+    if MACRO_ARGS:
+        end = macro_call_end(data, b['offset'], end)
+    t = data[b['offset']: end].decode('utf8', 'replace')
     t = re.sub(r'//[^\n]*', ' ', t)
     t = re.sub(r'/\*.*?\*/', ' ', t, flags=re.S)
     return re.sub(r'\s+', ' ', t).strip()
+
+MACRO_ARGS = False   # set only while the UnboundedSPSCQueue skeletons are produced (keeps older skeletons unchanged)
+
+def macro_call_end(data, beg, end):
+    """a node that is one function-like macro invocation has only the macro name as its expansion range:
+    extend it to the closing parenthesis so that the arguments (e.g. the guard inside QUILL_UNLIKELY) are kept"""
+    if not re.fullmatch(rb'[A-Za-z_]\w*', data[beg:end]):
+        return end
+    i = end
+    while i < len(data) and data[i:i + 1] in b' \t\r\n':
+        i += 1
+    if data[i:i + 1] != b'(':
+        return end
+    depth = 0
+    while i < len(data):
+        c = data[i:i + 1]
+        if c == b'(':
+            depth += 1
+        elif c == b')':
+            depth -= 1
+            if depth == 0:
+                return i + 1
+        i += 1
+    return end
 
 def find_all(n, pred, out=None):
     if out is None:
@@ -446,6 +473,59 @@ def emit(sk, facts, notes, out):
         open(out, 'w').write(txt)
     return txt
 
+# ===== C02 block begin (UnboundedSPSCQueue skeletons and facts; add-only, owned by props/c02.py) =====
+def uq_facts(repo, sk, facts, notes):
+    inc = os.path.join(repo, 'include', 'quill')
+    # ---- UnboundedSPSCQueue (C02, and the unbounded clause of C09)
+    global MACRO_ARGS
+    p = os.path.join(inc, 'core', 'UnboundedSPSCQueue.h')
+    docs = run_clang('#include "quill/core/UnboundedSPSCQueue.h"\n', 'UnboundedSPSCQueue', repo)
+    MACRO_ARGS = True
+    try:
+        for m in ('prepare_write', '_handle_full_queue', 'shrink', 'prepare_read', '_read_next_queue', 'empty',
+                  'finish_write', 'commit_write', 'finish_and_commit_write', 'finish_read', 'commit_read',
+                  'producer_capacity', 'capacity'):
+            sk['uq_' + m] = method_skeleton(docs, p, m) or []
+    finally:
+        MACRO_ARGS = False
+    # the wording of the error message is not part of the skeleton
+    sk['uq__handle_full_queue'] = [re.sub(r'QUILL_THROW\(\s*(\w+)\s*\{.*$', r'QUILL_THROW(\1)', l) for l in sk['uq__handle_full_queue']]
+    facts['uq_next_store_grow'] = one_mo(mo_of(sk['uq__handle_full_queue'], '_producer->next', 'store'), '_handle_full_queue next store', notes)
+    facts['uq_next_store_shrink'] = one_mo(mo_of(sk['uq_shrink'], '_producer->next', 'store'), 'shrink next store', notes)
+    facts['uq_next_load'] = one_mo(mo_of(sk['uq_prepare_read'], '_consumer->next', 'load'), 'prepare_read next load', notes)
+    facts['uq_empty_next_load'] = one_mo(mo_of(sk['uq_empty'], '_consumer->next', 'load'), 'empty next load', notes)
+    rn = [l for l in sk['uq__read_next_queue']]
+    top = [(i, l) for i, l in enumerate(rn) if not l.startswith(' ')]
+    def first_top(rx):
+        for i, l in top:
+            if re.match(rx, l):
+                return i
+        return None
+    i_del = first_top(r'EXPR delete _consumer$')
+    i_sw = first_top(r'EXPR _consumer = next_node$')
+    i_cr = first_top(r'EXPR _consumer->bounded_queue\.commit_read\(\)$')
+    i_rc = first_top(r'DECL .*_consumer->bounded_queue\.prepare_read\(\)')
+    # the old node is read once more (and a record found there is returned) before it is committed, deleted or left
+    facts['uq_recheck_present'] = bool(
+        i_rc is not None and i_rc + 2 < len(rn) and re.match(r'IF read_result\.read_pos', rn[i_rc + 1]) and
+        re.match(r'  RET return read_result$', rn[i_rc + 2]) and
+        all(x is None or i_rc < x for x in (i_del, i_sw, i_cr)))
+    facts['uq_commit_before_delete'] = bool(i_cr is not None and i_del is not None and i_cr < i_del)
+    facts['uq_delete_before_switch'] = bool(i_del is not None and i_sw is not None and i_del < i_sw)
+    def order_in(lines, rx_a, rx_b):
+        ia = [i for i, l in enumerate(lines) if re.match(rx_a, l)]
+        ib = [i for i, l in enumerate(lines) if re.match(rx_b, l)]
+        return bool(len(ia) == 1 and len(ib) == 1 and ia[0] < ib[0])
+    rx_store = r'EXPR _producer->next\.store\(next_node,'
+    rx_switch = r'EXPR _producer = next_node$'
+    facts['uq_publish_before_switch'] = order_in(sk['uq__handle_full_queue'], rx_store, rx_switch) and order_in(sk['uq_shrink'], rx_store, rx_switch)
+    facts['uq_commit_write_before_publish'] = order_in(sk['uq__handle_full_queue'], r'EXPR _producer->bounded_queue\.commit_write\(\)$', rx_store)
+    # the consumer loads `next` only after the bounded queue reported empty, and hands the loaded pointer on
+    pr_ = sk['uq_prepare_read']
+    facts['uq_next_load_after_empty'] = order_in(pr_, r'IF read_result\.read_pos != nullptr$', r'DECL Node\* const next_node = _consumer->next\.load')
+# ===== C02 block end =====
+
+
 def main():
     repo = REPO; out = os.path.join(os.path.dirname(os.path.abspath(__file__)), '..', 'coq', 'gen', 'SrcFacts.v')
     a = sys.argv[1:]
@@ -456,6 +536,7 @@ def main():
         elif x == '--out': out = a.pop(0)
         elif x == '--dump': dump = True
     sk, facts, notes = generate(repo)
+    uq_facts(repo, sk, facts, notes)   # C02 block
     txt = emit(sk, facts, notes, os.path.normpath(out))
     if dump:
         for k in sorted(sk):
